@@ -3,13 +3,14 @@
 //! sim/elvis/src/simulations/dns_basic.rs (one `Network::basic()`, default route through slot 0, server at
 //! `Ipv4Address::DNS_AUTH`).
 //!
-//! case: `F <flavor 0=paused|n=multi n> X <conn: -1 = one per lookup | e>=0 = predicted misses + e>
+//! case: `F <flavor 0=paused|n=multi n> X <conn: -1 = one per lookup | e>=0 = predicted misses + e - 1 (0: one too few)>
 //!        R <k> { <name hex> <address u32> }            records given to DnsServer::add_mapping before the run, in order
 //!        C <n> { <nb> { <m> { <kind 0=get_host_by_name|1=connect_by_name> <record index | k+j = unregistered name j> } } }
 //!                                                      client c runs its batches one after the other, the m lookups of a
 //!                                                      batch concurrently
 //!        D <pct> <max_us> <seed>`                      frame i is delayed by h(seed,i) % (max_us+1) us with probability pct%
 //! impl line: events in log order separated by ` ; `:
+//!   `N <conn>`                       the argument given to DnsServer::new
 //!   `L <c> <h> <name hex>`           lookup h of client c starts (logged right before the resolver is called)
 //!   `Q <c> <port> <payload hex>`     UDP datagram c:port -> DNS_AUTH:53 handed to the network
 //!   `A <c> <port> <payload hex>`     UDP datagram DNS_AUTH:53 -> c:port handed to the network
@@ -135,6 +136,11 @@ impl Cfg {
             }
         }
         n
+    }
+    /// DnsServer::new(num_connections)
+    fn connections(&self) -> usize {
+        let n = if self.conn < 0 { self.total_lookups() as i64 } else { self.predicted_misses() as i64 + self.conn - 1 };
+        n.clamp(1, 65535) as usize
     }
     fn client_ip(c: usize) -> u32 {
         0x0A00_000A + c as u32
@@ -273,8 +279,7 @@ fn child(case: &str) -> ! {
         let network = Network::basic();
         register_network(&network);
         let ip_table: IpTable<Recipient> = [("0.0.0.0/0", Recipient::new(0, None))].into_iter().collect();
-        let conn = if cfg.conn < 0 { cfg.total_lookups() } else { cfg.predicted_misses() + cfg.conn as usize };
-        let server = DnsServer::new(conn.min(65535) as u16);
+        let server = DnsServer::new(cfg.connections() as u16);
         for (n, a) in &cfg.records {
             server.add_mapping(String::from_utf8(n.clone()).expect("case names are UTF-8"), Ipv4Address::from(*a));
         }
@@ -458,8 +463,8 @@ fn digest(cfg: &Cfg, r: &ChildResult) -> Parsed {
     Parsed { evs, end }
 }
 
-fn render(p: &Parsed) -> String {
-    let mut parts = vec![];
+fn render(cfg: &Cfg, p: &Parsed) -> String {
+    let mut parts = vec![format!("N {}", cfg.connections())];
     for e in &p.evs {
         match e {
             Ev::L { c, h, name } => parts.push(format!("L {} {} {}", c, h, hex(name))),
@@ -480,7 +485,8 @@ fn render(p: &Parsed) -> String {
 /// The property, evaluated on the trace alone (nothing from the Coq model).
 fn oracle(cfg: &Cfg, p: &Parsed) -> Result<(), String> {
     let in_quantifier = cfg.clients.iter().all(|b| b.iter().all(|x| x.iter().all(|(_, r)| *r < cfg.records.len())))
-        && cfg.records.iter().all(|(n, _)| !n.contains(&DELIM));
+        && cfg.records.iter().all(|(n, _)| !n.contains(&DELIM))
+        && !(cfg.conn == 0 && cfg.predicted_misses() >= 2); // the server was told to stop accepting before the last query
     if !in_quantifier {
         // a lookup of a name without record, or a name containing the delimiter: outside the property
         stat("outside-quantifier");
@@ -660,18 +666,36 @@ fn gen_name(rng: &mut Rng, len: usize, style: u64) -> Vec<u8> {
     }
 }
 
+fn rng_len(len: usize) -> usize {
+    len.max(3)
+}
+
 struct C20;
 impl Family for C20 {
     fn gen(rng: &mut Rng, idx: usize) -> String {
         let flavor = if idx % 10 == 9 { *rng.pick(&[1usize, 2, 4]) } else { 0 };
+        let n = rng.range(1, 4) as usize;
         let k = rng.range(1, 4) as usize;
-        let hostile = rng.coin(1, 25);
+        // streams: 0 = inside the property's quantifier; hostile: 1 = a name without record is looked up,
+        // 2 = a registered name contains the delimiter, 3 = the server is told to accept one connection too few
+        let stream = match rng.below(100) {
+            0..=87 => 0,
+            88..=91 => 1,
+            92..=95 => 2,
+            _ => {
+                if flavor == 0 {
+                    3
+                } else {
+                    0
+                }
+            }
+        };
         let mut records: Vec<(Vec<u8>, u32)> = vec![];
         for j in 0..k {
             // lengths: 1, typical, the last one that fits the server's 80-byte read (24), 25, 40, 60, 200
             let len = match rng.below(100) {
                 0..=5 => 1,
-                6..=45 => rng.range(3, 20) as usize,
+                6..=45 => rng.range(2, 22) as usize,
                 46..=60 => 24,
                 61..=66 => 23,
                 67..=76 => 25,
@@ -689,23 +713,30 @@ impl Family for C20 {
             if j > 0 && rng.coin(1, 30) {
                 name = records[0].0.clone(); // registered twice: the last registration counts
             }
-            if hostile && j == 0 && rng.coin(1, 2) && name.len() >= 3 {
-                let at = rng.range(1, name.len() as u64 - 2) as usize;
-                name[at] = DELIM;
-                if String::from_utf8(name.clone()).is_err() {
-                    name = b"two words".to_vec();
-                }
+            if stream == 2 && j == 0 {
+                name = match rng.below(4) {
+                    0 => b"two words".to_vec(),
+                    1 => b" leading".to_vec(),
+                    2 => b"trailing ".to_vec(),
+                    _ => {
+                        let mut v = gen_name(rng, rng_len(len), 0);
+                        let at = v.len() / 2;
+                        v[at] = DELIM;
+                        v
+                    }
+                };
             }
             let addr = match rng.below(10) {
                 0 => 0,
                 1 => 0xffff_ffff,
                 2 => 0x2020_2020, // four delimiter bytes
                 3 => 0x7b2d_433c, // the address of google.com in the server's built-in table
+                4 | 5 => DNS_AUTH, // a machine that exists
                 _ => rng.u32(),
             };
             records.push((name, addr));
         }
-        let n = rng.range(1, 4) as usize;
+        let builtin = |nm: &Vec<u8>| nm == b"google.com" || nm == b"testserver.com";
         let mut cl = String::new();
         for _ in 0..n {
             let nb = rng.range(1, 3);
@@ -718,13 +749,21 @@ impl Family for C20 {
                 };
                 cl.push_str(&format!(" {}", m));
                 for _ in 0..m {
-                    let kind = if rng.coin(1, 6) { 1 } else { 0 };
-                    let r = if hostile && rng.coin(1, 4) { k + rng.below(2) as usize } else { rng.below(k as u64) as usize };
+                    let r = if stream == 1 && rng.coin(1, 3) { k + rng.below(2) as usize } else { rng.below(k as u64) as usize };
+                    // connect_by_name towards an address nobody owns waits for ARP (2 s): only in virtual time
+                    let reachable = r < k && records[r].1 == DNS_AUTH && !builtin(&records[r].0);
+                    let kind = if rng.coin(1, 6) && (flavor == 0 || reachable) { 1 } else { 0 };
                     cl.push_str(&format!(" {} {}", kind, r));
                 }
             }
         }
-        let conn: i64 = if flavor != 0 || rng.coin(1, 3) { -1 } else { rng.below(3) as i64 };
+        let conn: i64 = if stream == 3 {
+            0
+        } else if flavor != 0 || rng.coin(1, 3) {
+            -1
+        } else {
+            1 + rng.below(2) as i64
+        };
         let (dpct, dmax) = match rng.below(4) {
             0 => (0, 0),
             1 => (30, if flavor == 0 { 5000 } else { 800 }),
@@ -776,7 +815,7 @@ impl Family for C20 {
             Ok(()) => Oracle::Ok,
             Err(m) => Oracle::Fail(m),
         };
-        Outcome { impl_line: render(&p), oracle }
+        Outcome { impl_line: render(&cfg, &p), oracle }
     }
 }
 
